@@ -413,3 +413,35 @@ proof fn axiom_slice_len_leaps(s: &[LeapSecond])
         s@.len() <= isize::MAX,
 {
 }
+
+// C12, first sentence, as a statement over the lookup's contract: a transition recorded at count T_i takes effect exactly
+// at the UTC instant g(T_i) that the count denotes - between g(T_i) and g(T_{i+1}) the lookup answers transition i's type
+proof fn prop_c12_transition_takes_effect(z: TimeZoneRef, u: int, lt: LocalTimeType, i: int)
+    requires
+        zone_wf_base(z),
+        lookup_ok(z, u, lt),
+        0 <= i < z.transitions@.len() - 1,
+        g_spec(z.leap_seconds@, z.transitions@[i].unix_leap_time as int) <= u < g_spec(z.leap_seconds@, z.transitions@[i + 1].unix_leap_time as int),
+    ensures
+        lt == z.local_time_types@[z.transitions@[i].local_time_type_index as int],
+{
+    let tr = z.transitions@;
+    let s = z.leap_seconds@;
+    let t = choose|t: int| #[trigger] is_f(s, u, t) && i64::MIN <= t <= i64::MAX && (
+        if t >= tr[tr.len() - 1].unix_leap_time {
+            match *z.extra_rule {
+                Some(rule) => rule_answer(rule, u, lt),
+                None => false,
+            }
+        } else {
+            table_type_is(tr, z.local_time_types@, t, lt)
+        });
+    prop_c12_galois(s, u, t, tr[i].unix_leap_time as int);
+    prop_c12_galois(s, u, t, tr[i + 1].unix_leap_time as int);
+    lemma_transitions_sorted(tr);
+    assert(tr[i].unix_leap_time <= t < tr[i + 1].unix_leap_time);
+    if i + 1 < tr.len() - 1 {
+        assert(tr[i + 1].unix_leap_time < tr[tr.len() - 1].unix_leap_time);
+    }
+    assert(in_slot(tr, i, t));
+}
